@@ -256,15 +256,19 @@ Section Block.
     rewrite ?(dmul_zero_l o L), ?(dmul_zero_r o L).
     rewrite ?(dmul_id_l o L), ?(dmul_id_r o L) by (dd; side).
     rewrite Hinv1. dd. dnorm.
-    Show.
-  Abort.
+    rewrite !(dadd_zero_r' o L) by side.
+    rewrite (dadd_vcat o) by side.
+    rewrite !(dadd_hcat o) by side.
+    rewrite !(dadd_zero_r' o L) by side. rewrite !(dadd_zero_l' o L) by side.
+    rewrite (dadd_neg_l o L). dnorm. apply (did_blocks o).
+  Qed.
 
   (* B6: side conditions of a strong deformation retraction *)
   Theorem blk_fh : dmul o blk_fs blk_h = dzero o nr (r + mr).
   Proof.
     unfold blk_fs, blk_h. rewrite (dmul_hcat_vcat o L) by side.
     rewrite (dmul_zero_l o L), (dmul_id_l o L) by side. dnorm.
-    apply (dadd_zero_l o L (dzero o nr (r + mr))). side.
+    apply (dadd_zero_l' o L); side.
   Qed.
 
   Theorem blk_hb : dmul o blk_h blk_bt = dzero o (r + nr) mr.
@@ -272,6 +276,6 @@ Section Block.
     unfold blk_h, blk_bt. rewrite (dmul_vcat_l o) by side.
     rewrite (dmul_hcat_vcat o L) by side.
     rewrite !(dmul_zero_l o L), !(dmul_zero_r o L) by side. dnorm.
-    rewrite (dadd_zero_l o L (dzero o r mr)) by side. apply (dzero_vcat o).
+    rewrite (dadd_zero_l' o L) by side. apply (dzero_vcat o).
   Qed.
 End Block.
